@@ -3,16 +3,16 @@
 import json, sys, subprocess
 
 CLAIMED = {
- "C01": ("CP1 CP3 CP6 CP9 CP10 CP12 TK2; supporting HS2 HS3 HS5 HS6 HS7 HE1 GL1-GL4", "edge-dominance + exhaustive CFG path search + backward slicing over go/ssa (run loop cache events)",
+ "C01": ("CP1 CP3 CP6 CP9 CP10 CP12 TK2; supporting HS2 HS3 HS5 HS6 HS7 HS8 HE1 GL1-GL4", "edge-dominance + exhaustive CFG path search + backward slicing over go/ssa (run loop cache events)",
          "structural necessary conditions on every path of the run loop: skip only under digest equality with the loaded cache entry of the same task; no path from a successful run leaves a stale digest on disk; every declared file input reaches the hasher (and every string dependency of the syntax tree reaches one of the two input fields); the old digest is never re-instated after a success; the cache persists exactly its own map; glob expansion precedes the loop; (supporting, shared with C04/C05/C18) the digest covers every listed file's whole content and path, a hashing error stops the run, glob expansion records every non-hidden match under the spokfile directory",
          "not covered: change-sensitivity of the digest (C04), correctness of glob expansion (C05), races between hashing and running. Trusted: go/ssa + VTA of x/tools v0.29.0, encoding/json and os.WriteFile contracts, the effect-based recognition of the cache API"),
- "C02": ("CP2 CP3L CP5 CP11 AB1 AB2; supporting HS1 HS2 HS5 HS7 GL3 TK5", "control-dependence + backward slice non-interference analysis and must-pass-through path search over go/ssa",
+ "C02": ("CP2 CP3L CP5 CP11 AB1 AB2; supporting HS1 HS2 HS5 HS7 HS8 GL3 TK5", "control-dependence + backward slice non-interference analysis and must-pass-through path search over go/ssa",
          "no decision of one loop iteration (run, skip, record, persist) reads loop-carried state of other tasks; every successful run is recorded and persisted on all paths; an empty input list can never be skipped; the project root is absolute and derives from the discovered spokfile; (supporting, shared with C04/C05) the digest is independent of arrival order and of anything but path and content, the expansion root/pattern are the same on every run, a string is a glob exactly when it contains '*'",
          "not covered: that equal inputs give equal digests (C04) and the value-level outcome of the comparison. Same trusted base as C01"),
  "C03": ("GR1-GR8 ST7 TK1", "call-graph cycle / work-list detection, argument slicing, edge-dominance and per-iteration path enumeration over go/ssa",
          "dependency discovery has feedback (recursion or work list); AddEdge goes dependency -> dependent; every use of the Sort result is dominated by len(order)==graph.Order() with an erroring mismatch; undefined and duplicate names end in errors; every identifier dependency of the syntax tree reaches Task.TaskDependencies unconditionally; the whole request list is handed to one Run call; the run loop visits the unmodified order (no re-ordering through any alias) front to back with exactly one run/skip event and one result per iteration",
          "not covered: correctness of Kahn's algorithm inside collections/dag (its contract, incl. the silent truncation on cycles, is read from the module cache and trusted)"),
- "C04": ("HS1-HS5", "goroutine-topology recovery (alias propagation through closures/parameters), dominance of the sort over every consumer, origin tracing, path enumeration and interval evaluation over go/ssa",
+ "C04": ("HS1-HS5 HS8", "goroutine-topology recovery (alias propagation through closures/parameters), dominance of the sort over every consumer, origin tracing, path enumeration and interval evaluation over go/ssa",
          "the only arrival-ordered slice reaching the digest is sorted with a whole-element comparator before use; each item is sha256 of the whole file opened on the job path plus that unchanged path; items are never folded arithmetically; one item per non-directory job; every element of the list becomes a job; at least one worker for a non-empty list",
          "not covered: injectivity of hash||path framing, SHA-256 collisions, duplicate paths (value-level)"),
  "C05": ("GL1-GL4 TK2 TK5 AB2; supporting HS7", "edge-dominance and path enumeration in the GlobWalk callback + interprocedural slicing of fsys/pattern/keys over go/ssa",
@@ -30,13 +30,13 @@ CLAIMED = {
  "C12": ("CL1-CL4 CL6 CL7 TK3 GL2; supporting GL1 GL3 TK5 AB2 FD4", "effect inventory with interprocedural entry conditions (greatest fixpoint) + provenance slicing of every removal argument + containment-guard search over go/ssa",
          "every os.Remove/RemoveAll is under Clean==true and HasTask(clean)==false; removed paths derive only from output fields / their Vars and Globs indirections / SpokFile.Dir+cache constant; every output kind reaches the removal; every output of the syntax tree reaches one of the three output fields; glob expansion records every non-hidden match (directories included); a separator-safe test relating each path to SpokFile.Dir with an erroring side precedes any removal; (supporting, shared with C05/C17) output globs are expanded over the spokfile directory with the declared pattern and no directory-dropping option, a string is a glob exactly when it contains '*', the spokfile is the one discovery settled",
          "not covered: correctness of the containment predicate for every path string; directories matched by output globs"),
- "C13": ("EN1-EN6 TK4 PS1", "data-flow chain verification by backward slicing with object flow (templates, buffers) over go/ssa",
+ "C13": ("EN1-EN6 TK4 PS1 PS2", "data-flow chain verification by backward slicing with object flow (templates, buffers) over go/ssa",
          "os.Environ() precedes the spokfile variables in the list given to expand.ListEnviron (last duplicate wins); the Vars -> KEY=VALUE -> Task.Run -> Runner.Run -> interp.Env chain is unbroken; Task.Commands is text/template output over the AST command text with the variables map; variables are filed under their identifier and builtin errors propagate; one Task.Commands element per command, never re-cut from expanded text; a string literal is its token text minus the quotes; the environment list is not re-ordered",
          "not covered: value semantics of join/exec and of text/template; shell quoting"),
  "C14": ("CP1f CP3f CP10; supporting CP1 CP3L CP6 GL4 CP12 HS6", "edge-dominance of force==false over every skip + force-restricted CFG path search over go/ssa",
          "no 'skipped' store is reachable with force set; on the force==true paths a successful run never leaves a stale digest on disk; the force parameter is fed from Options.Force; (supporting, shared with C01/C05) the digest a forced run records is the digest of this iteration's inputs, computed over all inputs with globs expanded",
          "not covered: flag parsing inside the CLI library"),
- "C15": ("FM1-FM7; supporting FX2 ST9", "may-be-empty string analysis of every String() return + edge-dominance of the docstring guard + per-iteration path enumeration over go/ssa",
+ "C15": ("FM1-FM7; supporting FX2 ST9 TL2", "may-be-empty string analysis of every String() return + edge-dominance of the docstring guard + per-iteration path enumeration over go/ssa",
          "no appended node type can print as the empty string; Tree.Write prints every node once in order; a comment becomes a docstring only when the very next token is the task keyword and never across iterations; Task.String prints it before the keyword; one Append per parse-loop iteration; a parsed comment is never dropped on a non-failing path; the parser is handed the file as read",
          "not covered: preservation of comment text and order (value-level)"),
  "C16": ("TL1-TL4 LX1 LX3 PR4", "shape analysis of the single emission site and of every store into the lexer's cursor fields (origin tracing, necessary-guard dominance, state-graph exits) over go/ssa",
@@ -45,7 +45,7 @@ CLAIMED = {
  "C17": ("FD1 FD3 FD4 FD5 FD6 AB2", "loop exit-test classification by backward slicing (directory-dependent, content-independent, dominates the back edge) over go/ssa",
          "the upward walk has a content-independent exit test on every iteration and one that fires at the root; no negative answer from inside the entries loop; the hit is guarded by Name()==NAME and !IsDir() of the same entry; the stop comparison is on the listed directory after its entries were read; the CLI passes cwd/home",
          "not covered: symlinks, permission errors other than being reported; filepath.Dir fixed point at the root is a library fact"),
- "C18": ("CC1-CC10 HE1", "concurrency-shape analysis: channel/WaitGroup alias propagation, nil-dereference-after-error check, send-on-all-paths search, close/Wait ordering, drain-loop exits, shared-memory ownership, interval bound",
+ "C18": ("CC1-CC10 HE1; supporting HS3", "concurrency-shape analysis: channel/WaitGroup alias propagation, nil-dereference-after-error check, send-on-all-paths search, close/Wait ordering, drain-loop exits, shared-memory ownership, interval bound",
          "shape conditions that are sufficient (argument in the evidence) for crash-, deadlock-, leak- and race-freedom of the producer/jobs/workers/results/collector topology under every schedule; any other topology makes the check undecided; every caller of Hash stops on its error",
          "trusted: Go memory model for channels/WaitGroup; os.Open/Stat nil-with-error contract. Not covered: panics inside the standard library, a read that blocks forever"),
  "C19": ("FX1 FX2 FX3 FX4 FX6 CL1 CL3 CL4; supporting AB1 AB2 FD4 GR5 EN4 EN3", "effect analysis: frozen effect tables + call-site inventory + interprocedural entry conditions + path-root provenance slicing over go/ssa/VTA",
